@@ -28,11 +28,15 @@ import sys
 import traceback
 
 from ipv8.messaging.anonymization.community import TunnelCommunity
+from ipv8.messaging.anonymization.hidden_services import HiddenTunnelCommunity
 from ipv8.messaging.anonymization.tunnel import (
     BACKWARD,
     CIRCUIT_STATE_READY,
+    CIRCUIT_TYPE_RP_DOWNLOADER,
+    CIRCUIT_TYPE_RP_SEEDER,
     FORWARD,
     PEER_FLAG_EXIT_BT,
+    PEER_FLAG_EXIT_IPV8,
     PEER_FLAG_RELAY,
     PEER_FLAG_SPEED_TEST,
 )
@@ -51,6 +55,10 @@ EXIT_FLAGS = {PEER_FLAG_RELAY, PEER_FLAG_SPEED_TEST, PEER_FLAG_EXIT_BT}
 ROLES = {"O": RELAY_FLAGS, "P": RELAY_FLAGS, "R1": RELAY_FLAGS, "R2": RELAY_FLAGS, "X": EXIT_FLAGS}
 PATHS = {1: ["X"], 2: ["R1", "X"], 3: ["R1", "R2", "X"]}
 ORIGIN = {"A": "O", "B": "O", "C": "P"}
+E2E_ROLES = {"D": RELAY_FLAGS, "S": RELAY_FLAGS, "N1": RELAY_FLAGS, "N2": RELAY_FLAGS, "N3": RELAY_FLAGS,
+             "E": EXIT_FLAGS | {PEER_FLAG_EXIT_IPV8}}
+E2E_PATH = ["D", "N3", "N2", "S"]      # downloader, its relay, the rendezvous point, seeder
+E2E_LAYERS = [3, 2, 2]                 # D-N3: N3 + RP + e2e;  N3-RP: RP + e2e;  RP-S: RP (seeder side) + e2e
 
 RESOLVED = "9.9.8.8"
 DESTS = {"v4": ("v4", "9.9.9.9", 99), "v6": ("v6", "2001:db8::9", 99), "dom": ("dom", "tracker.example", 99)}
@@ -80,6 +88,31 @@ class RecTunnel(TunnelCommunity):
         self.raw_log.append((circuit, origin, data))
 
 
+class RecHidden(HiddenTunnelCommunity):
+    def __init__(self, settings) -> None:  # noqa: ANN001
+        super().__init__(settings)
+        self.raw_log: list = []
+
+    def on_raw_data(self, circuit, origin, data) -> None:  # noqa: ANN001
+        self.raw_log.append((circuit, origin, data))
+
+
+class StubDHT:
+    """The in-world stand-in for the DHT the hidden-service code announces introduction points to."""
+
+    def __init__(self) -> None:
+        self.store: dict = {}
+
+    async def peer_lookup(self, mid: bytes, peer=None) -> None:  # noqa: ANN001
+        return None
+
+    async def lookup(self, info_hash: bytes):  # noqa: ANN201
+        return info_hash, list(self.store.get(info_hash, []))
+
+    async def announce(self, info_hash: bytes, intro_point) -> None:  # noqa: ANN001
+        self.store.setdefault(info_hash, []).append(intro_point)
+
+
 def _addr_obj(a: tuple):  # noqa: ANN202
     kind, host, port = a
     return {"v4": UDPv4Address, "v6": UDPv6Address, "dom": DomainAddress}[kind](host, port)
@@ -104,6 +137,7 @@ class Flow:
         self.urandom_mark = 0
         self.expected_dest = None
         self.expected_origin = None
+        self.raw_target: tuple | None = None   # (node name, Circuit object) whose on_raw_data must see the payload
 
 
 class Bench:
@@ -111,7 +145,8 @@ class Bench:
         self.h = h
         self.seed = seed
         self.salt = seed
-        self.w = w = TunnelWorld(("c04", seed, h), ROLES, community_cls=RecTunnel, key_offset=seed % 8)
+        self.nlinks = 3 if h == "e2e" else h
+        self.w = self.make_world()
         self.urandom_log: list[bytes] = []
         self.last_held_len = -1
         self._orig_read = seams.URANDOM.read
@@ -123,6 +158,9 @@ class Bench:
             raise
 
     # -- construction -------------------------------------------------------------------------------------------------
+    def make_world(self) -> TunnelWorld:
+        return TunnelWorld(("c04", self.seed, self.h), ROLES, community_cls=RecTunnel, key_offset=self.seed % 8)
+
     def _recording_read(self, n: int) -> bytes:
         out = self._orig_read(n)
         self.urandom_log.append(out)
@@ -220,6 +258,23 @@ class Bench:
         a = self.addr[ci]
         return (a[link], a[link + 1]) if leg == "f" else (a[link + 1], a[link])
 
+    # -- what the path looks like (overridden for e2e circuits) --------------------------------------------------------
+    def layers(self, link: int) -> int:
+        return self.h - link
+
+    def peel_plans(self, leg: str, link: int) -> list:
+        """[(whose keys, [(SessionKeys, direction), ...])]: the layers to remove, outermost first, to reach the message."""
+        dirn = FORWARD if leg == "f" else BACKWARD
+        return [("originator", [(k, dirn) for k in self.okeys["A"][link:]]),
+                ("node", [(k, dirn) for k in self.nkeys["A"][link:]])]
+
+    def may_follow(self, ci: str, travel: str, at: int) -> list:
+        """Datagrams a node that cannot authenticate the cell may still emit after a faulty cell entered link `at`:
+        none in the forward direction (every hop authenticates its own layer); backward, relays only add a layer."""
+        if travel == "f":
+            return []
+        return [(self.addr[ci][at - k], self.addr[ci][at - k - 1]) for k in range(at)]
+
     # -- flows --------------------------------------------------------------------------------------------------------
     def launch(self, kind: str, size: int, dk: str) -> Flow:
         w = self.w
@@ -243,6 +298,7 @@ class Bench:
             src = DESTS[dk]
             fl.pt["b"] = ref.msg_data(ref.ZERO, src, fl.payload)
             fl.expected_origin = _addr_obj(src)
+            fl.raw_target = ("O", c)
             fl.secrets = [fl.payload] if size >= 8 else []
             if dk == "v6":
                 es.transport_ipv6.inject(fl.payload, (src[1], src[2], 0, 0))
@@ -276,7 +332,8 @@ class Bench:
         return later[0] if later else None
 
     def legs(self, kind: str) -> tuple:
-        return {"data": ("f",), "reply": ("b",), "ping": ("f", "b"), "test": ("f", "b")}[kind]
+        return {"data": ("f",), "reply": ("b",), "ping": ("f", "b"), "test": ("f", "b"),
+                "e2e-ds": ("f",), "e2e-sd": ("b",)}[kind]
 
     def deliveries(self, fl: Flow) -> tuple[int, list[str]]:
         """(number of completed deliveries of this flow, list of problems with anything delivered anywhere)."""
@@ -299,16 +356,17 @@ class Bench:
         if out:
             bad.append(f"{len(out)} datagram(s) left an exit socket although nothing was sent outward: "
                        f"{[(len(d), tuple(a)) for _, d, a in out][:3]}")
-        if fl.kind == "reply":
-            for circuit, origin, data in raws.pop("O"):
-                if (circuit is self.circ["A"] and data == fl.payload and type(origin) is type(fl.expected_origin)
+        if fl.raw_target is not None:
+            rname, rcirc = fl.raw_target
+            for circuit, origin, data in raws.pop(rname):
+                if (circuit is rcirc and data == fl.payload and type(origin) is type(fl.expected_origin)
                         and tuple(origin) == tuple(fl.expected_origin)):
                     n += 1
                 else:
-                    which = [ci for ci, c in self.circ.items() if c is circuit]
-                    bad.append(f"O.on_raw_data(circuit={which or '?'}, origin={origin!r}, {len(data)} bytes "
-                               f"{'same' if data == fl.payload else 'DIFFERENT'}); expected circuit A, origin "
-                               f"{fl.expected_origin!r}")
+                    bad.append(f"{rname}.on_raw_data(circuit={'the right one' if circuit is rcirc else 'ANOTHER'}, "
+                               f"origin={origin!r}, {len(data)} bytes "
+                               f"{'same' if data == fl.payload else 'DIFFERENT'}); expected the circuit under test, "
+                               f"origin {fl.expected_origin!r}")
         for name, entries in raws.items():
             if entries:
                 bad.append(f"{name}.on_raw_data got {len(entries)} datagram(s) it should never see")
@@ -335,62 +393,62 @@ class Bench:
             fl.pt["b"] = ref.msg_test_response(fl.ident, data if data is not None else b"")
             if data is not None and len(data) >= 8:
                 fl.secrets.append(data)
-        expect = [(leg, link) for leg in legs for link in (range(h) if leg == "f" else range(h - 1, -1, -1))]
+        nl = self.nlinks
+        expect = [(leg, link) for leg in legs for link in (range(nl) if leg == "f" else range(nl - 1, -1, -1))]
         wire = list(w.wire_log)
         cells = []
         if len(wire) != len(expect):
-            v.append((f"clean:wire-shape|{tag}", f"expected {len(expect)} cells on the wire, saw {len(wire)}: "
+            v.append(("clean:wire-shape", f"h={h} {tag}: expected {len(expect)} cells on the wire, saw {len(wire)}: "
                       f"{[(d.src[0], d.dst[0], len(d.data)) for d in wire][:8]}"))
         for (leg, link), dg in zip(expect, wire):
             f = ref.parse_cell(self.prefix, dg.data)
             pair = self.link_pair("A", leg, link)
             if f is None or (tuple(dg.src), tuple(dg.dst)) != pair:
-                v.append((f"clean:wire-shape|{tag}", f"datagram {leg}{link} travels {dg.src}->{dg.dst}, expected "
+                v.append(("clean:wire-shape", f"h={h} {tag}: datagram {leg}{link} travels {dg.src}->{dg.dst}, expected "
                           f"{pair}, cell={f is not None}"))
                 continue
             cid, plain, _early, body = f
             cells.append((leg, link, body))
             pt = fl.pt[leg]
-            dirn = FORWARD if leg == "f" else BACKWARD
             if cid != self.link_cid["A"][link]:
-                v.append((f"clean:circuit-id|{tag}:{leg}", f"link {link} carries circuit id {cid}, expected "
+                v.append((f"clean:circuit-id|{leg}", f"h={h} {tag} link {link} carries circuit id {cid}, expected "
                           f"{self.link_cid['A'][link]}"))
             if plain:
-                v.append((f"clean:plaintext-flag|{tag}:{leg}", f"cell on link {link} has the plaintext flag set"))
-            layers = h - link
+                v.append((f"clean:plaintext-flag|{leg}", f"h={h} {tag}: cell on link {link} has the plaintext flag set"))
+            layers = self.layers(link)
             if len(body) != len(pt) + OVH * layers:
-                v.append((f"clean:layer-count|{tag}:{leg}", f"h={h} link {link}: body is {len(body)} bytes, "
+                v.append((f"clean:layer-count|{leg}", f"h={h} {tag} link {link}: body is {len(body)} bytes, "
                           f"{len(pt)}-byte message under {layers} layer(s) should be {len(pt) + OVH * layers}"))
-            for who, keys in (("originator", self.okeys["A"]), ("node", self.nkeys["A"])):
+            for who, plan in self.peel_plans(leg, link):
                 try:
                     b = body
-                    for k in keys[link:]:
+                    for k, dirn in plan:
                         b = k.decrypt_str(b, dirn)
                     ok = b == pt
                     err = "" if ok else f"peeled to {len(b)} bytes != reference message ({len(pt)} bytes)"
                 except (ValueError, RuntimeError) as e:
                     ok, err = False, f"{type(e).__name__}: {e}"
                 if not ok:
-                    v.append((f"clean:layers|{tag}:{leg}", f"h={h} link {link}: removing the layers of hops "
-                              f"{list(range(link + 1, h + 1))} with the {who}-held keys fails: {err}"))
+                    v.append((f"clean:layers|{leg}", f"h={h} {tag} link {link}: removing the {layers} layer(s) of "
+                              f"the remaining hops with the {who}-held keys fails: {err}"))
         for i in range(len(cells)):
             for j in range(i + 1, len(cells)):
                 (l1, k1, b1), (l2, k2, b2) = cells[i], cells[j]
                 if b1 == b2:
-                    v.append((f"clean:same-ciphertext|{tag}", f"h={h}: links {l1}{k1} and {l2}{k2} carry the same "
+                    v.append(("clean:same-ciphertext", f"h={h} {tag}: links {l1}{k1} and {l2}{k2} carry the same "
                               f"cell body ({len(b1)} bytes)"))
                 else:
                     off = ref.common_window(b1, b2)
                     if off is not None:
-                        v.append((f"clean:same-ciphertext-window|{tag}", f"h={h}: 16 bytes at offset {off} of the "
+                        v.append(("clean:same-ciphertext-window", f"h={h} {tag}: 16 bytes at offset {off} of the "
                                   f"body on {l1}{k1} also occur in the body on {l2}{k2}"))
         for dg in wire:
             for s in fl.secrets:
                 if s in dg.data:
-                    v.append((f"clean:plaintext-on-wire|{tag}", f"h={h}: the {len(s)}-byte payload is readable in the "
+                    v.append(("clean:plaintext-on-wire", f"h={h} {tag}: the {len(s)}-byte payload is readable in the "
                               f"datagram {dg.src[0]}->{dg.dst[0]}"))
             if ref.MARKER in dg.data or any(p is not None and len(p) >= 8 and p in dg.data for p in fl.pt.values()):
-                v.append((f"clean:plaintext-on-wire|{tag}", f"h={h}: marker/plaintext message readable in the datagram "
+                v.append(("clean:plaintext-on-wire", f"h={h} {tag}: marker/plaintext message readable in the datagram "
                           f"{dg.src[0]}->{dg.dst[0]}"))
         n, bad = self.deliveries(fl)
         for b in bad:
@@ -444,7 +502,7 @@ class Bench:
             msg = fl.pt[leg]
             dirn = FORWARD if leg == "f" else BACKWARD
             cid = self.link_cid["A"][link]
-            layers = self.h - link
+            layers = self.layers(link)
             plain = False
             if var == "layers":
                 body = msg
@@ -477,12 +535,13 @@ class Bench:
         fl = self.launch(kind, size, dk)
         if fault is None:
             return self.check_clean(fl)
-        fclass = fault[0] if fault[0] != "xor" else ("xor-header" if fault[1] < ref.HEADER_LEN else "xor-body")
-        tag = f"{fclass}|{kind}:{leg}"
+        family = {"xor": "alter", "trunc": "alter", "append": "alter", "splice": "splice", "crosslink": "splice",
+                  "reflect": "reflect", "foreign": "foreign"}[fault[0]]
+        tag = f"{kind}:{leg}"
         v: list = []
         held = self.pump(capture=self.link_pair("A", leg, link))
         if held is None:
-            return [(f"harness:no-cell-to-capture|{kind}:{leg}", f"h={h} no cell on link {link} of leg {leg}")], "x"
+            return [("after-fault:original-lost", f"h={h} {kind}: no cell appeared on link {link} of leg {leg}")], "x"
         if kind == "test" and leg == "b":
             data = self.test_response_data(fl)
             fl.pt["b"] = ref.msg_test_response(fl.ident, data if data is not None else b"")
@@ -500,47 +559,218 @@ class Bench:
         lenient = (not STRICT_RELAY_EARLY) and fault[0] == "xor" and fault[1] == ref.POS_RELAY_EARLY
         n1, bad1 = self.deliveries(fl)
         for b in bad1:
-            v.append((f"fault-delivered|{tag}", f"{where}: {b}"))
+            v.append((f"fault-delivered|{family}", f"{where}: {b}"))
         if n1 and not lenient:
-            v.append((f"fault-delivered|{tag}", f"{where}: the faulty datagram completed the flow ({n1}x): altered or "
+            v.append((f"fault-delivered|{family}", f"{where}: the faulty datagram completed the flow ({n1}x): altered or "
                       f"foreign data was accepted"))
+        elif n1 and lenient:
+            # literal reading of the statement: *any* altered byte must lead to a drop. The relay_early header flag is
+            # authenticated by no key, so this one is a genuine (protocol-level) defect; it has its own key so that it
+            # can be listed in known_findings.json without hiding any other accepted alteration.
+            v.append(("fault-delivered|alter:relay_early-flag-unauthenticated",
+                      f"{where}: a cell whose relay_early header byte (offset {ref.POS_RELAY_EARLY}) was flipped in "
+                      f"flight was not dropped (its data arrived bit-exact)"))
         new = w.wire_log[n_wire:]
         fbody = fdg.data[ref.HEADER_LEN:]
         if not (lenient and n1):
-            if travel == "f" and new:
-                v.append((f"fault-forwarded|{tag}", f"{where}: instead of dropping it the receiver sent {len(new)} "
-                          f"datagram(s): {[(d.src[0], d.dst[0], len(d.data)) for d in new][:4]}"))
-            elif travel == "b":
-                allowed = [(self.addr[ci][at - k], self.addr[ci][at - k - 1]) for k in range(at)]
-                got = [(tuple(d.src), tuple(d.dst)) for d in new]
-                if got != allowed[:len(got)]:
-                    v.append((f"fault-forwarded|{tag}", f"{where}: unexpected datagrams after a backward fault: {got}, "
-                              f"at most {allowed} may follow"))
+            allowed = self.may_follow(ci, travel, at)
+            got = [(tuple(d.src), tuple(d.dst)) for d in new]
+            if got != allowed[:len(got)]:
+                v.append(("fault-forwarded", f"{where}: instead of dropping the faulty cell the network carried "
+                          f"{[(a[0], b[0]) for a, b in got][:4]}; only nodes that cannot authenticate it may pass it "
+                          f"on: {[(a[0], b[0]) for a, b in allowed]}"))
         for d in new:
             f = ref.parse_cell(self.prefix, d.data)
             if f is not None and len(fbody) >= 16 and f[3] == fbody:
-                v.append((f"same-ciphertext|{tag}", f"{where}: the faulty body was re-emitted unchanged on "
+                v.append(("same-ciphertext", f"{where}: the faulty body was re-emitted unchanged on "
                           f"{d.src[0]}->{d.dst[0]}"))
         v.extend(self.loop_exceptions(tag, "fault"))
         outcome = "accepted-intact(relay_early byte)" if (lenient and n1) else f"dropped-after-{len(new)}-hops"
         # the untouched original still arrives
+        del w.loop.outside_log[:]
+        for ov in w.ov.values():
+            del ov.raw_log[:]
         w.deliver_datagram(held)
         self.pump()
         n2, bad2 = self.deliveries(fl)
         for b in bad2:
-            v.append((f"after-fault:wrong-delivery|{tag}", f"{where}: {b}"))
-        want = (n1 + 1) if kind in ("data", "reply") else 1
-        if n2 != want:
-            v.append((f"after-fault:original-lost|{tag}", f"{where}: after the faulty datagram the untouched original "
-                      f"completed the flow {n2 - n1} more time(s), expected once"))
+            v.append(("after-fault:wrong-delivery", f"{where}: {b}"))
+        if n2 != 1 and not (lenient and n1):      # (after an accepted flip the original is a duplicate: no promise)
+            v.append(("after-fault:original-lost", f"{where}: after the faulty datagram the untouched original "
+                      f"completed the flow {n2} time(s), expected once"))
         v.extend(self.loop_exceptions(tag, "after-fault"))
         return v, outcome
+
+
+class E2EBench(Bench):
+    """
+    A hidden-service (end-to-end) circuit built by the real rendezvous protocol: seeder S opens an introduction point
+    (S -> N1 -> E), downloader D finds it through its data circuit (D -> E) and the stub DHT, S opens a rendezvous
+    point at N2, D builds D -> N3 -> N2 and links.  Exit sockets and node endpoints are bridged during set-up only.
+    Afterwards data flows D -> N3 -> N2 -> S and back, with one extra end-to-end layer under the hop layers.
+    """
+
+    SERVICE = b"C04-hidden-service!!"
+
+    def make_world(self) -> TunnelWorld:
+        self.dht = StubDHT()
+        return TunnelWorld(("c04-e2e", self.seed), E2E_ROLES, community_cls=RecHidden, key_offset=self.seed % 7,
+                           dht_provider=self.dht)
+
+    def _bridge(self) -> bool:
+        w = self.w
+        moved = False
+
+        def exit_transport(addr: tuple):  # noqa: ANN202
+            for t in w.loop.transports:
+                if (not t.closed and t.owner is not None and ":" not in t.local_addr[0]
+                        and (t.owner.address[0], t.local_addr[1]) == tuple(addr)):
+                    return t
+            return None
+
+        log = w.loop.outside_log
+        while log:
+            tr, data, addr = log.pop(0)
+            src = (tr.owner.address[0], tr.local_addr[1])
+            if tuple(addr) in w.endpoints:
+                w.inject(src, tuple(addr), data, note="from-exit")
+                moved = True
+            else:
+                t2 = exit_transport(addr)
+                if t2 is not None:
+                    t2.inject(data, src)
+                    moved = True
+        while w.undeliverable:
+            dg = w.undeliverable.pop(0)
+            t2 = exit_transport(dg.dst)
+            if t2 is not None:
+                t2.inject(dg.data, tuple(dg.src))
+                moved = True
+        if moved:
+            w.loop.settle()
+        return moved or bool(w.inflight)
+
+    def _setup(self) -> None:
+        w = self.w
+        svc = self.SERVICE
+        d, s_ = w.ov["D"], w.ov["S"]
+        self.prefix = d.get_prefix()
+        w.idle_hook = self._bridge
+        done = w.loop.create_future()
+        w.nodes["D"].run(d.join_swarm, svc, 1, done.set_result, seeding=False)
+        w.nodes["S"].run(s_.join_swarm, svc, 1, None)
+        w.restrict("S", ["N1", "E"])                                  # introduction circuit S -> N1 -> E
+        w.drive(w.nodes["S"].run(s_.create_introduction_point, svc), horizon=30)
+        w.flush()
+        if not self.dht.store.get(svc):
+            raise HarnessError("e2e set-up: no introduction point was announced")
+        s_.candidates[w.peer_of("S", "N2")] = sorted(RELAY_FLAGS)
+        w.restrict("S", ["N2"])                                       # the rendezvous point will be N2
+        w.restrict("D", ["E"])
+        dc = w.nodes["D"].run(d.create_circuit, 1, required_exit=w.peer_of("D", "E"))
+        w.flush()
+        if dc is None or dc.state != CIRCUIT_STATE_READY:
+            raise HarnessError("e2e set-up: the downloader's data circuit did not become ready")
+        d.candidates[w.peer_of("D", "N3")] = sorted(RELAY_FLAGS)
+        w.restrict("D", ["N3"])                                       # D -> N3 -> rendezvous point
+        w.drive(w.nodes["D"].run(d.do_peer_discovery), horizon=30)
+        w.flush()
+        if not done.done():
+            raise HarnessError("e2e set-up: the end-to-end circuit was not linked")
+        w.idle_hook = None
+        w.run_for(6.0)
+        ce = [c for c in d.circuits.values() if c.ctype == CIRCUIT_TYPE_RP_DOWNLOADER]
+        cs = [c for c in s_.circuits.values() if c.ctype == CIRCUIT_TYPE_RP_SEEDER]
+        if len(ce) != 1 or len(cs) != 1 or not ce[0].e2e or ce[0].state != CIRCUIT_STATE_READY \
+                or cs[0].state != CIRCUIT_STATE_READY or ce[0].hs_session_keys is None or cs[0].hs_session_keys is None:
+            raise HarnessError("e2e set-up: circuits not in the linked state")
+        self.ce, self.cs = ce[0], cs[0]
+        self.circ = {"A": self.ce}
+        self.names = {"A": list(E2E_PATH)}
+        self.addr = {"A": [tuple(w.nodes[n].address) for n in E2E_PATH]}
+        self.exit_sock = {}
+        self.link_cid = {}
+        zero = ("0.0.0.0", 0)
+        for _ in range(10):     # first packets carry relay_early; also learns the per-link circuit ids
+            self.reset_logs()
+            w.nodes["D"].run(d.send_data, self.ce.hop.address, self.ce.circuit_id, zero, zero, ref.payload(64, self.salt))
+            w.flush()
+            fwd = list(w.wire_log)
+            w.nodes["S"].run(s_.send_data, self.cs.hop.address, self.cs.circuit_id, zero, zero, ref.payload(64, self.salt))
+            w.flush()
+        cells = [ref.parse_cell(self.prefix, dg.data) for dg in fwd]
+        pairs = [(tuple(dg.src), tuple(dg.dst)) for dg in fwd]
+        if pairs != [self.link_pair("A", "f", i) for i in range(3)] or any(c is None for c in cells) \
+                or len(d.raw_log) != 1 or len(s_.raw_log) != 1:
+            raise HarnessError(f"e2e warm-up: path is {[(a[0], b[0]) for a, b in pairs]}, expected {E2E_PATH}")
+        self.link_cid["A"] = [c[0] for c in cells]
+        n3, n2 = w.ov["N3"], w.ov["N2"]
+        cid = self.link_cid["A"]
+        self.k_n3 = {"end": self.ce.hops[0].keys, "node": n3.relay_from_to[cid[0]].hop.keys}
+        self.k_rpd = {"end": self.ce.hops[1].keys, "node": n2.relay_from_to[cid[1]].hop.keys}
+        self.k_rps = {"end": self.cs.hops[0].keys, "node": n2.relay_from_to[cid[2]].hop.keys}
+        self.foreign_keys = [generate_session_keys(bytes([0xC4 + i]) * 64) for i in range(3)]
+        if w.loop.exceptions:
+            raise HarnessError(f"exceptions during the fault-free e2e build: {w.loop.exceptions[:1]}")
+        self.reset_logs()
+
+    def layers(self, link: int) -> int:
+        return E2E_LAYERS[link]
+
+    def peel_plans(self, leg: str, link: int) -> list:
+        plans = []
+        for who in ("end", "node"):
+            n3, rpd, rps = self.k_n3[who], self.k_rpd[who], self.k_rps[who]
+            if leg == "f":     # D -> S: D adds the e2e layer with BACKWARD keys; the rendezvous point re-wraps BACKWARD
+                hs = self.ce.hs_session_keys if who == "end" else self.cs.hs_session_keys
+                plan = [[(n3, FORWARD), (rpd, FORWARD), (hs, BACKWARD)], [(rpd, FORWARD), (hs, BACKWARD)],
+                        [(rps, BACKWARD), (hs, BACKWARD)]][link]
+            else:              # S -> D: S adds the e2e layer with FORWARD keys
+                hs = self.cs.hs_session_keys if who == "end" else self.ce.hs_session_keys
+                plan = [[(n3, BACKWARD), (rpd, BACKWARD), (hs, FORWARD)], [(rpd, BACKWARD), (hs, FORWARD)],
+                        [(rps, FORWARD), (hs, FORWARD)]][link]
+            plans.append(("originator" if who == "end" else "node", plan))
+        return plans
+
+    def may_follow(self, ci: str, travel: str, at: int) -> list:
+        # Towards S every node authenticates; towards D the rendezvous point does (it removes the seeder-side layer
+        # first) and only N3 adds a layer blindly.
+        if travel == "b" and at == 1:
+            return [(self.addr["A"][1], self.addr["A"][0])]
+        return []
+
+    def launch(self, kind: str, size: int, dk: str) -> Flow:
+        w = self.w
+        fl = Flow(kind, size, dk)
+        zero = ("0.0.0.0", 0)
+        fl.expected_origin = UDPv4Address(*zero)
+        if kind == "e2e-ds":
+            fl.payload = ref.payload(size, self.salt)
+            fl.pt["f"] = ref.msg_data(ref.ZERO, ref.ZERO, fl.payload)
+            fl.raw_target = ("S", self.cs)
+            ov, c, name = w.ov["D"], self.ce, "D"
+        elif kind == "e2e-sd":
+            fl.payload = ref.payload(size, self.salt + 1)
+            fl.pt["b"] = ref.msg_data(ref.ZERO, ref.ZERO, fl.payload)
+            fl.raw_target = ("D", self.ce)
+            ov, c, name = w.ov["S"], self.cs, "S"
+        else:
+            raise HarnessError(kind)
+        fl.secrets = [fl.payload] if size >= 8 else []
+        w.nodes[name].run(ov.send_data, c.hop.address, c.circuit_id, zero, zero, fl.payload)
+        return fl
+
+
+def make_bench(h, seed: int) -> Bench:  # noqa: ANN001
+    return E2EBench(h, seed) if h == "e2e" else Bench(h, seed)
 
 
 # ---- enumeration ----------------------------------------------------------------------------------------------------
 
 def cell_len(h: int, kind: str, leg: str, link: int, size: int, dk: str) -> int:
     alen = {"v4": 7, "v6": 19, "dom": 5 + len(DESTS["dom"][1])}
+    if h == "e2e":
+        return ref.HEADER_LEN + 15 + size + OVH * E2E_LAYERS[link]
     if kind == "data":
         m = 1 + alen[dk] + 7 + size
     elif kind == "reply":
@@ -565,9 +795,11 @@ def expand(group: list, thorough: bool) -> list:
             out.extend(["xor", pos, m] for m in masks)
         return out
     if fclass == "misc":
-        out = [["trunc"], ["append"], ["splice", "B"], ["splice", "C"], ["reflect"]]
+        out = [["trunc"], ["append"], ["reflect"]]
+        if h != "e2e":
+            out.extend([["splice", "B"], ["splice", "C"]])
         out.extend(["foreign", var] for var in FOREIGN_VARIANTS)
-        out.extend(["crosslink", j] for j in range(h) if j != link)
+        out.extend(["crosslink", j] for j in range(3 if h == "e2e" else h) if j != link)
         return out
     raise HarnessError(fclass)
 
@@ -611,6 +843,19 @@ def groups(thorough: bool) -> list:
                 for size in test_xor_sizes:
                     out.append([h, "test", size, "v4", leg, link, "xor"])
                     out.append([h, "test", size, "v4", leg, link, "misc"])
+    # end-to-end (hidden service) circuit: D -> N3 -> rendezvous -> S and back
+    if thorough:
+        e2e_xor = sorted(set(range(0, 65)) | set(range(64, 1401, 64)) | set(QUICK_SIZES) | {1399})
+    else:
+        e2e_xor = [0, 24, 279, 1000]
+    for kind, leg in (("e2e-ds", "f"), ("e2e-sd", "b")):
+        for size in clean_sizes:
+            out.append(["e2e", kind, size, "v4", leg, 0, "clean"])
+        for link in range(3):
+            for size in e2e_xor:
+                out.append(["e2e", kind, size, "v4", leg, link, "xor"])
+            for size in QUICK_SIZES:
+                out.append(["e2e", kind, size, "v4", leg, link, "misc"])
     return out
 
 
@@ -627,7 +872,7 @@ def group_cost(g: list, thorough: bool) -> int:
 def pack_items(gs: list, thorough: bool, target: int) -> list:
     """Bins of groups with the same hop count and about `target` cases each (one bench per bin)."""
     items = []
-    for h in (1, 2, 3):
+    for h in (1, 2, 3, "e2e"):
         cur, cost = [], 0
         for g in sorted((g for g in gs if g[0] == h), key=lambda g: -group_cost(g, thorough)):
             c = group_cost(g, thorough)
@@ -652,8 +897,8 @@ def work(chunk: list) -> list:
     return res
 
 
-def run_item(h: int, gs: list, seed: int, thorough: bool) -> dict:
-    out = {"evals": 0, "by_class": {}, "outcomes": set(), "viols": {}, "aborted": 0, "samples": [], "positions": 0}
+def run_item(h, gs: list, seed: int, thorough: bool) -> dict:
+    out = {"evals": 0, "by_class": {}, "outcomes": set(), "viols": {}, "aborted": 0, "positions": 0}
     bench = None
 
     def note(v: list, case: list) -> None:
@@ -670,7 +915,7 @@ def run_item(h: int, gs: list, seed: int, thorough: bool) -> dict:
                 case = [g[1], g[2], g[3], g[4], g[5], fault]
                 if bench is None:
                     try:
-                        bench = Bench(h, seed)
+                        bench = make_bench(h, seed)
                     except Exception as e:  # noqa: BLE001
                         # no ready circuit / no clean delivery at all: everything in this bin would fail the same way
                         note([_build_failure(h, e)], case)
@@ -690,9 +935,23 @@ def run_item(h: int, gs: list, seed: int, thorough: bool) -> dict:
                 out["outcomes"].add((h, g[1], g[4], g[5], ck, outcome))
                 if v:
                     bad_cases += 1
-                    note(v, case)
                     bench.close()      # never let a damaged world colour later cases
                     bench = None
+                    if fault is not None and any(k.startswith("after-fault:") for k, _ in v):
+                        # is it the fault that broke the circuit, or does this flow not even work fault-free?
+                        clean_case = [g[1], g[2], g[3], g[4], g[5], None]
+                        try:
+                            bench = make_bench(h, seed)
+                            cv, _ = bench.run_case(clean_case)
+                        except Exception as e:  # noqa: BLE001
+                            cv = [_build_failure(h, e)]
+                        if cv:
+                            note(cv, clean_case)
+                            v = [(k, w) for k, w in v if not k.startswith("after-fault:")]
+                            if bench is not None:
+                                bench.close()
+                                bench = None
+                    note(v, case)
                     if bad_cases >= MAX_BAD_PER_GROUP:
                         out["aborted"] += 1
                         break
@@ -702,17 +961,15 @@ def run_item(h: int, gs: list, seed: int, thorough: bool) -> dict:
                 if bench is not None and bench.last_held_len != n:
                     note([("harness:cell-length-model", f"group {g}: cells are {bench.last_held_len} bytes, the "
                            f"enumeration assumed {n}")], [g[1], g[2], g[3], g[4], g[5], ["xor", 0, 1]])
-            if len(out["samples"]) < 2:
-                out["samples"].append({"h": h, "group": g, "cases": len(faults)})
     finally:
         if bench is not None:
             bench.close()
     return out
 
 
-def _build_failure(h: int, e: Exception) -> tuple:
+def _build_failure(h, e: Exception) -> tuple:
     if isinstance(e, HarnessError):
-        return (f"clean:no-working-circuit|h{h}", f"fault-free set-up failed: {e}")
+        return (f"clean:no-working-circuit|{'e2e' if h == 'e2e' else f'h{h}'}", f"fault-free set-up failed: {e}")
     return (f"harness-exception|{type(e).__name__}|setup", f"h={h}: {traceback.format_exc()[-900:]}")
 
 
@@ -776,7 +1033,7 @@ def run(ctx: core.Ctx) -> core.Report:
                    + [{"case": [g[1], g[2], g[3], g[4], g[5], f]} for g in (gs[0], gs[-1]) for f in expand(g, ctx.thorough)[:2]],
         "exhaustive": aborted == 0,
         "groups_aborted_after_violations": aborted,
-        "hops": [1, 2, 3],
+        "hops": [1, 2, 3, "e2e: downloader - relay - rendezvous point - seeder (3 links)"],
         "links": "every link of the path, both directions",
         "clean_sizes": f"{min(g[2] for g in gs)}..{max(g[2] for g in gs)} ({len({g[2] for g in gs if g[6] == 'clean'})} "
                        "sizes) for data, reply and test flows; ipv4 / ipv6 / hostname destinations for the quick sizes",
@@ -795,7 +1052,9 @@ def run(ctx: core.Ctx) -> core.Report:
         "crypto primitives (ipv8_rust_tunnels: X25519, HKDF, ChaCha20-Poly1305) trusted; ciphertext bytes differ "
         "between runs (Rust-side ephemeral keys), control flow does not",
         "PythonCryptoEndpoint only (the Rust endpoint is not explored)",
-        "end-to-end (hidden-service) circuits are NOT covered: no rendezvous/introduction set-up in this harness",
+        "end-to-end (hidden-service) circuits: one topology (swarm hop count 1: D - N3 - rendezvous N2 - S), built by "
+        "the real introduction/rendezvous protocol with a stub DHT provider and no PEX community; only raw data flows "
+        "in both directions are faulted on the linked circuit (the set-up handshake itself is not faulted)",
         "the relay_early header byte is not authenticated by any key; flipping it cannot alter the data, and the check "
         "accepts 'dropped' or 'delivered bit-exact' for that byte only (every other byte must lead to a drop)",
         "payloads of 0 and 1 bytes cannot pass any exit policy (C06); for these two sizes the exit socket's "
@@ -813,16 +1072,17 @@ def run(ctx: core.Ctx) -> core.Report:
 def _case_rank(rp: dict) -> tuple:
     """Prefer small replays: fewer hops, clean before faults, small sizes, low link."""
     c = rp["case"]
-    return (rp["h"], c[1], c[4], repr(c[5]))
+    return (str(rp["h"]), c[1], c[4], repr(c[5]))
 
 
 def replay(ctx: core.Ctx, data) -> list:  # noqa: ANN001
     if not data:
         return []
     try:
-        b = Bench(int(data["h"]), int(data["seed"]))
+        h = data["h"] if data["h"] == "e2e" else int(data["h"])
+        b = make_bench(h, int(data["seed"]))
     except Exception as e:  # noqa: BLE001
-        k, w = _build_failure(int(data["h"]), e)
+        k, w = _build_failure(data["h"], e)
         return [core.Violation(k, w)]
     try:
         try:
